@@ -32,16 +32,8 @@ enum Call { Chunk(Spec), Db(Vec<Spec>) }
 struct Base { name: u32, prim: Vec<u8>, sec: Vec<u8>, chunk: Vec<u8> }
 
 fn repo_dir() -> PathBuf {
-    // the harness Cargo.toml (rendered by vp/check.py) names the repository under test
-    let toml = std::fs::read_to_string(concat!(env!("CARGO_MANIFEST_DIR"), "/Cargo.toml")).expect("Cargo.toml");
-    for l in toml.lines() {
-        if l.starts_with("pallas-hardano") {
-            let a = l.find("path = \"").expect("path") + 8;
-            let b = l[a..].find('"').unwrap() + a;
-            return Path::new(&l[a..b]).parent().unwrap().to_path_buf();
-        }
-    }
-    panic!("pallas-hardano path not found in Cargo.toml");
+    // root of the pallas tree under test (set by vp/check.py)
+    PathBuf::from(std::env::var("VERIF_REPO").unwrap_or_else(|_| "/repo".into()))
 }
 
 fn load_bases() -> Vec<Base> {
